@@ -1,2 +1,298 @@
-(** C16 — SVG path text. (statements follow) *)
-From KV Require Import Scalar Svg.
+(** C16 — SVG path text round-trips and parses per the path grammar.
+
+    Model: model/Svg.v ([SvgLexer], [from_svg], [write_to], [from_svg_arc], arc.rs [append_iter])
+    over byte lists, generic in the scalar.  [num_of] stands for [str::parse::<f64>] on a
+    delimited token, [show] for [Display for f64], [frem] for [%]: they are universally
+    quantified and what is assumed about them is a hypothesis of the statement.
+    [fixed] is the code with proposed_fixes/C16-plus-sign.diff and C16-smooth-ctrl.diff,
+    [pinned] the code as pinned.  Vocabulary ([number_tok], [interp], [render], [spells_ok] ...)
+    in spec/SvgSpec.v.  Statements only; proofs in proofs/C16_*.v. *)
+From Coq Require Import ZArith Reals List Bool Floats String.
+From KV Require Import Scalar RInst F64 Geom Curves Path ShapeTypes Svg SvgNum SvgSpec
+  C16_lex C16_parse C16_roundtrip C16_errors C16_refute C16_extra C16_arc C16_f64.
+Import ListNotations.
+Local Open Scope Z_scope.
+
+(** * The number lexer *)
+
+(** the token [get_number] delimits is a word of  [+-]? (d+ (. d* )? | . d+) ([eE] [+-]? d+)?
+    that what follows cannot extend; it is the LONGEST prefix of the input (after white space)
+    that is such a word; and conversely every such prefix is what the lexer returns *)
+Theorem C16_lex_number_spec : forall s t r,
+  lex_number s = Ok (t, r) <-> (skip_ws s = t ++ r /\ number_tok t /\ delim t r).
+Proof. exact lex_number_iff. Qed.
+
+Theorem C16_lex_number_longest : forall s t r, lex_number s = Ok (t, r) ->
+  forall t' r', skip_ws s = t' ++ r' -> number_tok t' -> (List.length t' <= List.length t)%nat.
+Proof. exact lex_number_maximal. Qed.
+
+(** error otherwise: end of input, or no delimited word of the grammar at the head of the input
+    (no digit in the mantissa, or an 'e'/'E' not followed by [+-]? digit) *)
+Theorem C16_lex_number_error : forall s e, lex_number s = Err e <->
+  (e = UnexpectedEof /\ skip_ws s = []) \/
+  (e = Wrong /\ skip_ws s <> [] /\ ~ exists t r, skip_ws s = t ++ r /\ number_tok t /\ delim t r).
+Proof. exact lex_number_err_iff. Qed.
+
+Example C16_lex_examples :
+  lex_number (txt " -1.5e-3,7") = Ok (txt "-1.5e-3", txt ",7") /\
+  lex_number (txt ".5.5") = Ok (txt ".5", txt ".5") /\
+  lex_number (txt "1e5e") = Ok (txt "1e5", txt "e") /\
+  lex_number (txt "+7-8") = Ok (txt "+7", txt "-8") /\
+  lex_number (txt "1e") = Err Wrong /\ lex_number (txt "-.") = Err Wrong /\
+  lex_number (txt "  ") = Err UnexpectedEof.
+Proof. vm_compute. repeat split; reflexivity. Qed.
+
+(** * Every spelling of a command list means what the SVG specification says *)
+
+(** For every scalar type whose + is commutative and for which 2*a = a*2 (the reals, binary64),
+    every command list [cmds] over M m L l H h V v C c S s Q q T t A a Z z, and every valid
+    spelling [sps] of it (letters omitted where implicit repetition allows, any white space,
+    comma-wsp or nothing between arguments where the tokenisation allows, any token of the number
+    grammar whose value [num_of] gives: '+' signs, leading/trailing '.', exponents): the repaired
+    parser returns exactly the meaning of [cmds] — including the error when the data does not
+    start with a moveto. An arc command contributes [arc_els], see [C16_arc_*]. *)
+Theorem C16_svg_spellings :
+  forall (T : Type) (S : Scalar T) (num_of : list Z -> option T) (frem : T -> T -> T),
+  (forall a b : T, fadd a b = fadd b a) -> (forall a : T, fmul f2 a = fmul a f2) ->
+  forall (cmds : list SCmd) (sps : list Spell) (tail : list Z),
+  spells_ok num_of None cmds sps -> all_ws tail ->
+  from_svg num_of frem fixed (render cmds sps tail) = interp frem cmds.
+Proof. exact @spellings_generic. Qed.
+
+(** at the real numbers the two algebraic hypotheses are theorems *)
+Theorem C16_svg_spellings_real :
+  forall (num_of : list Z -> option R) (frem : R -> R -> R)
+         (cmds : list (@SCmd R)) (sps : list Spell) (tail : list Z),
+  spells_ok num_of None cmds sps -> all_ws tail ->
+  from_svg num_of frem fixed (render cmds sps tail) = interp frem cmds.
+Proof. exact spellings_real. Qed.
+
+(** ... and so are they on binary64 (IEEE + and * are commutative; Coq's floats have one NaN): the
+    theorem holds for the executable instance as it stands, [interp] computing with the same
+    floating-point operations — no rounding abstraction in between *)
+Theorem C16_svg_spellings_f64 :
+  forall (num_of : list Z -> option float) (frem : float -> float -> float)
+         (cmds : list (@SCmd float)) (sps : list Spell) (tail : list Z),
+  spells_ok num_of None cmds sps -> all_ws tail ->
+  from_svg num_of frem fixed (render cmds sps tail) = interp frem cmds.
+Proof. exact spellings_f64. Qed.
+
+(** hence two spellings of the same commands yield the same path *)
+Theorem C16_svg_two_spellings :
+  forall (num_of : list Z -> option R) (frem : R -> R -> R) (cmds : list (@SCmd R)) sps1 sps2 t1 t2,
+  spells_ok num_of None cmds sps1 -> spells_ok num_of None cmds sps2 -> all_ws t1 -> all_ws t2 ->
+  from_svg num_of frem fixed (render cmds sps1 t1) = from_svg num_of frem fixed (render cmds sps2 t2).
+Proof. exact two_spellings_real. Qed.
+
+(** the drawing level: an element list written with absolute or relative commands, H/V for
+    horizontal/vertical lines, S/T where the first control point is the reflected one (or the
+    current point after another kind of command), Z alone where the MoveTo it implies follows —
+    for every choice list [chs], the commands mean the element list *)
+Theorem C16_svg_respell_drawing :
+  forall (frem : R -> R -> R) (els : list (PathEl R)) (chs : list Choice),
+  starts_with_move els ->
+  interp frem (encode els chs) = Ok (insert_moves origin false els).
+Proof. exact encode_meaning_real. Qed.
+
+Theorem C16_svg_respell_parse :
+  forall (num_of : list Z -> option R) (frem : R -> R -> R) (els : list (PathEl R)) chs sps tail,
+  starts_with_move els -> spells_ok num_of None (encode els chs) sps -> all_ws tail ->
+  from_svg num_of frem fixed (render (encode els chs) sps tail) = Ok (insert_moves origin false els).
+Proof. exact respell_parse_real. Qed.
+
+(** the pinned code does NOT have this property: witnesses on binary64 *)
+Theorem C16_svg_spellings_plus_sign_refuted :
+  exists (cmds : list (@SCmd float)) sps, spells_ok dec_parse None cmds sps /\
+    from_svg dec_parse fmod pinned (render cmds sps []) <> interp fmod cmds.
+Proof. exact plus_sign_refuted. Qed.
+Theorem C16_svg_spellings_smooth_refuted :
+  exists (cmds : list (@SCmd float)) sps, spells_ok dec_parse None cmds sps /\
+    from_svg dec_parse fmod pinned (render cmds sps []) <> interp fmod cmds.
+Proof. exact smooth_after_quadratic_refuted. Qed.
+
+(** the witnesses, and what the repaired code returns for them *)
+Example C16_witness_plus :
+  from_svg dec_parse fmod pinned (txt "m1 1 +2 3") = Ok [MoveTo (mkPoint 1 1)%float] /\
+  from_svg dec_parse fmod fixed (txt "m1 1 +2 3") = Ok [MoveTo (mkPoint 1 1)%float; LineTo (mkPoint 3 4)%float].
+Proof. split; [exact plus_pinned|exact plus_fixed]. Qed.
+Example C16_witness_smooth :
+  from_svg dec_parse fmod pinned (txt "M0 0Q1 1 2 0S3 1 4 0") =
+    Ok [MoveTo (mkPoint 0 0); QuadTo (mkPoint 1 1) (mkPoint 2 0);
+        CurveTo (mkPoint 3 (-1)) (mkPoint 3 1) (mkPoint 4 0)]%float /\
+  from_svg dec_parse fmod fixed (txt "M0 0Q1 1 2 0S3 1 4 0") =
+    Ok [MoveTo (mkPoint 0 0); QuadTo (mkPoint 1 1) (mkPoint 2 0);
+        CurveTo (mkPoint 2 0) (mkPoint 3 1) (mkPoint 4 0)]%float.
+Proof. split; [exact sq_pinned|exact sq_fixed]. Qed.
+Example C16_spellings_nonvacuous :
+  from_svg dec_parse fmod fixed (txt "m1e1+10h+10v1E1c0 10-10,10-10 0z") =
+  from_svg dec_parse fmod fixed (txt "M10,10 L20,10 L20,20 C20,30 10,30 10,20 Z").
+Proof. exact (proj1 (proj2 spellings_example)). Qed.
+
+(** * Round trip *)
+
+(** [fin] is the set of coordinates the assumptions about printing cover (all reals; the finite
+    doubles). Assumed of Rust's [Display]/[parse]: [show x] is  -? d+ (. d+)?  and parses back to x. *)
+Theorem C16_svg_roundtrip_elements :
+  forall (T : Type) (S : Scalar T) (num_of : list Z -> option T) (show : T -> list Z)
+         (frem : T -> T -> T) (fin : T -> Prop),
+  (forall a b : T, fadd a b = fadd b a) -> (forall a : T, fmul f2 a = fmul a f2) ->
+  (forall x, fin x -> shown_str (show x)) -> (forall x, fin x -> num_of (show x) = Some x) ->
+  forall els : list (PathEl T),
+  starts_with_move els -> Forall (el_fin fin) els -> closes_followed els ->
+  from_svg num_of frem fixed (write_to show els) = Ok els.
+Proof. exact @roundtrip_elements. Qed.
+
+(** without the condition on ClosePath: the same segments (scalar equality test sound, as on R) *)
+Theorem C16_svg_roundtrip_segments :
+  forall (T : Type) (S : Scalar T) (num_of : list Z -> option T) (show : T -> list Z)
+         (frem : T -> T -> T) (fin : T -> Prop),
+  (forall a b : T, fadd a b = fadd b a) -> (forall a : T, fmul f2 a = fmul a f2) ->
+  (forall x, fin x -> shown_str (show x)) -> (forall x, fin x -> num_of (show x) = Some x) ->
+  (forall a b : T, feqb a b = true -> a = b) ->
+  forall els : list (PathEl T),
+  starts_with_move els -> Forall (el_fin fin) els ->
+  exists els', from_svg num_of frem fixed (write_to show els) = Ok els' /\ segments els' = segments els.
+Proof. exact @roundtrip_segments. Qed.
+
+(** binary64: under the two assumptions about Rust's printing and parsing of finite doubles, the
+    element list comes back identically (as Coq terms: bit for bit) *)
+Theorem C16_svg_roundtrip_elements_f64 :
+  forall (num_of : list Z -> option float) (show : float -> list Z) (frem : float -> float -> float),
+  (forall x, F.is_finite x = true -> shown_str (show x)) ->
+  (forall x, F.is_finite x = true -> num_of (show x) = Some x) ->
+  forall els : list (PathEl float),
+  starts_with_move els -> Forall (el_fin (fun x => F.is_finite x = true)) els -> closes_followed els ->
+  from_svg num_of frem fixed (write_to show els) = Ok els.
+Proof. exact roundtrip_elements_f64. Qed.
+
+Theorem C16_svg_roundtrip_real :
+  forall (num_of : list Z -> option R) (show : R -> list Z) (frem : R -> R -> R),
+  (forall x, shown_str (show x)) -> (forall x, num_of (show x) = Some x) ->
+  forall els : list (PathEl R), starts_with_move els ->
+  (exists els', from_svg num_of frem fixed (write_to show els) = Ok els' /\ segments els' = segments els) /\
+  (closes_followed els -> from_svg num_of frem fixed (write_to show els) = Ok els).
+Proof. exact roundtrip_real. Qed.
+
+Example C16_roundtrip_nonvacuous :
+  let tbl := [(0.5%float, txt "0.5"); ((-0)%float, txt "-0"); (0x1.ad7f29abcaf48p-24%float, txt "0.0000001"); (3%float, txt "3")] in
+  let els := [MoveTo (mkPoint 0.5 (-0)); LineTo (mkPoint 0x1.ad7f29abcaf48p-24 3); ClosePath; MoveTo (mkPoint 3 3)]%float in
+  write_to (show_tbl tbl) els = txt "M0.5,-0 L0.0000001,3 Z M3,3" /\
+  from_svg dec_parse fmod fixed (write_to (show_tbl tbl) els) = Ok els.
+Proof. exact roundtrip_example. Qed.
+
+(** * Errors *)
+
+(** a command other than moveto first: UninitializedPath (any variant of the code) *)
+Theorem C16_svg_errors_uninitialized :
+  forall (T : Type) (S : Scalar T) (num_of : list Z -> option T) (frem : T -> T -> T) (cfg : Cfg) s c r,
+  skip_ws s = c :: r -> is_letter c = true -> c <> 109 -> c <> 77 ->
+  from_svg num_of frem cfg s = Err UninitializedPath.
+Proof. exact @uninitialized. Qed.
+
+(** a letter that is no command, in a started path: UnknownCommand; a command letter followed by
+    something that is not a number: the lexer's error (any variant of the code, any state) *)
+Theorem C16_svg_errors_unknown_letter :
+  forall (T : Type) (S : Scalar T) (num_of : list Z -> option T) (frem : T -> T -> T) (cfg : Cfg) st s c r,
+  ps_started st = true -> skip_ws s = c :: r -> is_letter c = true -> decode_cmd c = None ->
+  step num_of frem cfg st s = SErr (UnknownCommand c).
+Proof. exact @step_unknown. Qed.
+Theorem C16_svg_errors_malformed_number :
+  forall (T : Type) (S : Scalar T) (num_of : list Z -> option T) (frem : T -> T -> T) (cfg : Cfg) st s c r k e,
+  skip_ws s = c :: r -> is_letter c = true -> decode_cmd c = Some k -> k <> KZ ->
+  (ps_started st = true \/ k = KM) -> get_number num_of r = Err e ->
+  step num_of frem cfg st s = SErr e.
+Proof. exact @step_bad_number. Qed.
+(** ... and [get_number] fails with Wrong exactly when no token of the grammar is at the head *)
+Theorem C16_svg_errors_get_number :
+  forall (T : Type) (num_of : list Z -> option T) s,
+  get_number num_of s = Err Wrong <->
+  (skip_ws s <> [] /\ forall t r, skip_ws s = t ++ r -> number_tok t -> delim t r -> num_of t = None).
+Proof. exact @get_number_wrong. Qed.
+
+(** after any valid spelling of a non-empty command list: an unknown letter gives
+    UnknownCommand, a command letter followed by a malformed number gives Wrong/UnexpectedEof *)
+Theorem C16_svg_errors_after_prefix :
+  forall (num_of : list Z -> option R) (frem : R -> R -> R) (cmds : list (@SCmd R)) sps w c rest,
+  cmds <> [] -> spells_ok num_of None cmds sps -> (exists els, interp frem cmds = Ok els) ->
+  all_ws w -> is_letter c = true -> (w = [] -> is_e c = false) ->
+  (decode_cmd c = None ->
+     from_svg num_of frem fixed (render cmds sps (w ++ c :: rest)) = Err (UnknownCommand c)) /\
+  (forall k e, decode_cmd c = Some k -> k <> KZ -> get_number num_of rest = Err e ->
+     from_svg num_of frem fixed (render cmds sps (w ++ c :: rest)) = Err e).
+Proof. exact errors_after_prefix_real. Qed.
+
+Example C16_errors_nonvacuous :
+  from_svg dec_parse fmod fixed (txt "M1 1e") = Err Wrong /\ from_svg dec_parse fmod fixed (txt "M1 .") = Err Wrong /\
+  from_svg dec_parse fmod fixed (txt "M1 --1") = Err Wrong /\ from_svg dec_parse fmod fixed (txt "M1 1 L") = Err UnexpectedEof /\
+  from_svg dec_parse fmod fixed (txt "L1 1") = Err UninitializedPath /\
+  from_svg dec_parse fmod fixed (txt "M1 1 X") = Err (UnknownCommand 88) /\
+  from_svg dec_parse fmod fixed (txt "") = Ok [].
+Proof. exact errors_example. Qed.
+
+(** * Termination *)
+
+(** every loop iteration that continues consumes at least one byte (in every state the loop can
+    reach: [last_cmd] is never 'Z'/'z') ... *)
+Theorem C16_svg_consumes :
+  forall (T : Type) (S : Scalar T) (num_of : list Z -> option T) (frem : T -> T -> T) (cfg : Cfg)
+         st s st' em r,
+  lcinv st -> step num_of frem cfg st s = SNext st' em r -> (List.length r < List.length s)%nat /\ lcinv st'.
+Proof. exact @step_consumes. Qed.
+(** ... so the parser terminates on every byte string: the model's fuel is never exhausted *)
+Theorem C16_svg_total :
+  forall (T : Type) (S : Scalar T) (num_of : list Z -> option T) (frem : T -> T -> T) (cfg : Cfg) s,
+  from_svg num_of frem cfg s <> Err OutOfFuel.
+Proof. exact @from_svg_total. Qed.
+
+(** * Arcs *)
+
+(** structure of what an arc command emits (repaired code): a line to the stated end point if
+    degenerate, else a non-empty run of cubics — never nothing *)
+Theorem C16_arc_els_shape :
+  forall (T : Type) (S : Scalar T) (frem : T -> T -> T) from to radii rot large sweep,
+  arc_els frem true from to radii rot large sweep = [LineTo to] \/
+  (arc_els frem true from to radii rot large sweep <> [] /\
+   Forall (fun e => exists p1 p2 p3, e = CurveTo p1 p2 p3) (arc_els frem true from to radii rot large sweep)).
+Proof. exact @arc_els_shape. Qed.
+
+
+(** the pinned code can emit NOTHING for an arc command (release build; a debug build panics in
+    [debug_assert!(sum_of_sq != 0.0)]): the path then never reaches the stated end point *)
+Theorem C16_arc_degenerate_refuted :
+  exists (from to radii : Point float) rot large sweep,
+    arc_els fmod false from to radii rot large sweep = [] /\
+    arc_els fmod true from to radii rot large sweep = [LineTo to].
+Proof. exact arc_degenerate_refuted. Qed.
+Example C16_witness_arc :
+  from_svg dec_parse fmod pinned (txt "M0 0A1 1 0 0 0 1e-200 0") = Ok [MoveTo (mkPoint 0 0)%float] /\
+  from_svg dec_parse fmod fixed (txt "M0 0A1 1 0 0 0 1e-200 0") =
+    Ok [MoveTo (mkPoint 0 0); LineTo (mkPoint 0x1.87e92154ef7acp-665 0)]%float.
+Proof. split; [exact arc_pinned|exact arc_fixed]. Qed.
+
+(** In exact real arithmetic ([frem] = truncated remainder), for every arc that is not degenerate
+    ([from_svg_arc] = [Some arc]): the ellipse arc starts at the current point and ends at the stated
+    end point, turns in the requested direction by less than a full turn, the long way round iff
+    large-arc, keeps the x-rotation, and has the requested radii scaled up by a common factor >= 1
+    (F.6.6.2).  [arc_point arc t] = centre + rotated (rx cos t, ry sin t). *)
+Theorem C16_arc_endpoints :
+  forall (a : SvgArc) (arc : Arc R), from_svg_arc Rrem true a = Some arc ->
+  arc_point arc (arc_start_angle arc) = sa_from a /\
+  arc_point arc (arc_start_angle arc + arc_sweep_angle arc)%R = sa_to a /\
+  (if sa_sweep a then (0 <= arc_sweep_angle arc < 2 * PI)%R else (- (2 * PI) < arc_sweep_angle arc <= 0)%R) /\
+  arc_x_rotation arc = sa_x_rotation a /\
+  arc_sweep_angle arc <> 0%R /\
+  (if sa_large_arc a then (PI <= Rabs (arc_sweep_angle arc))%R else (Rabs (arc_sweep_angle arc) <= PI)%R) /\
+  (exists s, (1 <= s)%R /\ vx (arc_radii arc) = (Rabs (vx (sa_radii a)) * s)%R /\
+                          vy (arc_radii arc) = (Rabs (vy (sa_radii a)) * s)%R).
+Proof. exact from_svg_arc_real. Qed.
+
+Example C16_arc_nonvacuous :
+  exists arc, from_svg_arc Rrem true (mkSvgArc (mkPoint 0 0) (mkPoint 2 0) (mkVec2 1 1) 0 false true)%R = Some arc.
+Proof. exact arc_example. Qed.
+
+(** and what an arc command appends to the path (cubics, or the line of a degenerate arc) ends at
+    the stated end point, exactly *)
+Theorem C16_arc_reaches_end :
+  forall (from to radii : Point R) (rot : R) (large sweep : bool),
+  el_end (last (arc_els Rrem true from to radii rot large sweep) ClosePath) = Some to.
+Proof. exact arc_els_end. Qed.
